@@ -176,7 +176,15 @@ def run_case(case, ctx):
 			# the output path already holds a larger, older matrix: nothing of it may survive
 			with open(out, 'w', encoding='utf-8') as f:
 				f.write(',' + ','.join(f'old{i}' for i in range(40)) + '\n' + ('oldrow,' + ','.join(['0.1234'] * 40) + '\n') * 40)
-		res = run_cli(rel(args), cwd=cwd)
+		env = None
+		if case.get('stray_db') and rmode != 'use_db':
+			# a reference database is configured - root option or GAMBIT_DB_PATH - although this invocation does not use it
+			ws = Wd.get_world(ctx, case['stray_world'], 'c16stray')
+			if case['stray_db'] == 'env':
+				env = {'GAMBIT_DB_PATH': ws.dir}
+			else:
+				args = ['-d', ws.dir] + args
+		res = run_cli(rel(args), cwd=cwd, env=env)
 		desc = f'`gambit {" ".join(os.path.relpath(a, d) if a.startswith(d) else a for a in args)}` (effective spec {eff})'
 		if res.exit_code != 0:
 			raise Violation('command_failed', f'{desc}: exit {res.exit_code}: {res.stderr[-300:]} {res.exception!r}', case)
@@ -227,6 +235,8 @@ def run_case(case, ctx):
 			classes.append('list_cwd=' + list_cwd[1])
 		if case.get('warmup'):
 			classes.append('after_run_with_other_parameters')
+		if case.get('stray_db') and rmode != 'use_db':
+			classes.append('unused_database_configured=' + case['stray_db'])
 		if any(any(ch in l for ch in ',"\n') for l in qlabels + rlabels):
 			classes.append('label_needs_quoting')
 		if any(ord(ch) > 127 for l in qlabels + rlabels for ch in l):
@@ -273,6 +283,9 @@ def gen_case(draw, tier):
 	}
 	if rmode == 'use_db':
 		case['world'] = draw(Wd.world(max_refs=4, min_refs=1, max_queries=1, nasty_names=False))
+	elif draw(st.integers(0, 3)) == 3:
+		case['stray_db'] = draw(st.sampled_from(['option', 'env']))
+		case['stray_world'] = draw(Wd.world(max_refs=2, min_refs=1, max_queries=1, nasty_names=False))
 	return case
 
 
